@@ -10,6 +10,13 @@
 (* records in the middle); with and without TSIG; at most one fault (with TSIG  *)
 (* also the MAC field emptied / truncated / extended); optionally               *)
 (* one more envelope after the end of the transfer.                             *)
+(* Fault-free behaviours also come in variants on which nothing may depend:     *)
+(* the zone name spelled in another letter case in the query / in the answer    *)
+(* (RFC 4343), and a pacing sender -- every envelope 2 ticks after the previous *)
+(* one, each within the read timeout of 3 ticks, the whole transfer far beyond  *)
+(* it; fault "stall": one envelope later than the timeout (paced or not).       *)
+(* Serial rows 8-10: the server's / the client's serial is exactly 0 (the zero  *)
+(* value of a counter is a serial like any other, RFC 1982).                    *)
 EXTENDS Xfr, GenBase
 
 CONSTANTS MaxRecs,          \* records (not counting SOAs) per transfer
@@ -17,6 +24,8 @@ CONSTANTS MaxRecs,          \* records (not counting SOAs) per transfer
           TsigModes,        \* subset of BOOLEAN
           Empties,          \* TRUE: also partitions with one empty envelope after the first
           Consumer,         \* TRUE: the consumer of the channel is a process of its own, free to be slow
+          Focus,            \* "base": faults, no variants / stall; "variants": fault-free behaviours in all variants + stall, nosoa;
+                            \* "all": everything
           EmitBehaviours, Shard, NShards
 
 VARIABLES cfgv,             \* the behaviour: [mode, q, R, lens, tsig, fault, tail]
@@ -34,7 +43,10 @@ SerialTable == <<
   << <<0, 3>>, <<0, 3>>, <<0, 3>> >>,                 \* 4  equal: up to date
   << <<0, 7>>, <<0, 7>>, <<0, 3>> >>,                 \* 5  client ahead: up to date
   << <<32768, 5>>, <<0, 1>>, <<0, 6>> >>,             \* 6  distance 2^31+1: s older: up to date
-  << <<0, 6>>, <<16384, 0>>, <<32768, 5>> >>          \* 7  distance 2^31-1: s newer
+  << <<0, 6>>, <<16384, 0>>, <<32768, 5>> >>,         \* 7  distance 2^31-1: s newer
+  << <<65535, 65534>>, <<65535, 65535>>, <<0, 0>> >>, \* 8  the serial wrapped to exactly 0: s = 0 is newer than q = 2^32-2
+  << <<0, 0>>, <<0, 1>>, <<0, 2>> >>,                 \* 9  the client's serial is 0
+  << <<0, 0>>, <<0, 0>>, <<0, 0>> >>                  \* 10 both 0: up to date (AXFR: a zone whose serial is 0)
 >>
 SerialCases == { SerialTable[i] : i \in SerialIds }
 
@@ -66,10 +78,21 @@ AmbigKinds == {"machalf", "macminus1"}             \* valid truncations (RFC 894
 
 FaultsFor(k, tsig) ==
   { [kind |-> "none", pos |-> 0], [kind |-> "nosoa", pos |-> 1] }
-    \cup { [kind |-> f, pos |-> p] : f \in {"rcode", "id", "close", "cut"}, p \in 1..k }
-    \cup (IF tsig THEN { [kind |-> f, pos |-> p] : f \in {"alter", "unsign", "wrongkey", "drop", "dup", "hdrid"} \cup MacKinds, p \in 1..k }
+    \cup (IF Focus # "base" THEN { [kind |-> "stall", pos |-> p] : p \in 1..k } ELSE {})
+    \cup (IF Focus = "variants" THEN {} ELSE { [kind |-> f, pos |-> p] : f \in {"rcode", "id", "close", "cut"}, p \in 1..k })
+    \cup (IF tsig /\ Focus # "variants" THEN { [kind |-> f, pos |-> p] : f \in {"alter", "unsign", "wrongkey", "drop", "dup", "hdrid"} \cup MacKinds, p \in 1..k }
                        \cup { [kind |-> "swap", pos |-> p] : p \in 1..(k - 1) }
           ELSE {})
+
+\* variants of a behaviour: one more envelope after the end; the zone name spelled differently in the query (sq) and
+\* in the owner names of the answer (sa); a pacing sender (every envelope `pace' ticks after the previous one)
+Plain == [tail |-> FALSE, sq |-> "lower", sa |-> "lower", pace |-> 0]
+Paced == [Plain EXCEPT !.pace = TimeoutTicks - 1]
+Variants == IF Focus = "base" THEN {Plain, [Plain EXCEPT !.tail = TRUE]} ELSE
+            {Plain, [Plain EXCEPT !.tail = TRUE], Paced}
+            \cup { [Plain EXCEPT !.sq = x[1], !.sa = x[2]] : x \in {<<"upper", "lower">>, <<"lower", "upper">>, <<"mixed", "mixed2">>} }
+ASSUME \A v \in Variants : v.sq \in Spellings /\ v.sa \in Spellings
+ASSUME Paced.pace <= TimeoutTicks /\ 2 * Paced.pace > TimeoutTicks   \* each envelope in time, two of them already beyond the timeout
 
 \* (the behaviours are enumerated by nested quantifiers in Init: TLC normalises a big UNION of record sets
 \* in quadratic time)
@@ -82,12 +105,12 @@ Network(b) ==
   LET f  == b.fault
       R1 == IF f.kind = "nosoa" THEN <<Rec(0)>> \o Tail(b.R) ELSE b.R
       e0 == [i \in 1..Len(b.lens) |->
-               LET e == Env(Chunks(R1, b.lens)[i]) IN
+               LET e == [Env(Chunks(R1, b.lens)[i]) EXCEPT !.gap = IF f.kind = "stall" /\ f.pos = i THEN TimeoutTicks + 1 ELSE b.pace] IN
                IF f.pos # i THEN e
                ELSE IF f.kind = "rcode" THEN [e EXCEPT !.rcode = 2]
                ELSE IF f.kind = "id" THEN [e EXCEPT !.id = FALSE]
                ELSE e]
-      e1 == IF b.tail THEN Append(e0, Env(<<Rec(77)>>)) ELSE e0
+      e1 == IF b.tail THEN Append(e0, [Env(<<Rec(77)>>) EXCEPT !.gap = b.pace]) ELSE e0
       keys == [i \in 1..Len(e1) |-> IF f.kind = "wrongkey" /\ f.pos = i THEN KeyBad ELSE KeyGood]
       e2 == IF b.tsig THEN SignAll(e1, keys) ELSE e1
       p  == f.pos
@@ -105,9 +128,11 @@ Network(b) ==
        [] OTHER -> e2
 
 Init == /\ \E t \in Transfers : \E l \in Partitions(Len(t.R)) : \E ts \in TsigModes :
-             \E f \in FaultsFor(Len(l), ts) : \E tl \in BOOLEAN :
-               /\ (tl => f.kind = "none")        \* a tail (one more envelope after the transfer) only on fault-free behaviours
-               /\ cfgv = [mode |-> t.mode, q |-> t.q, R |-> t.R, lens |-> l, tsig |-> ts, fault |-> f, tail |-> tl]
+             \E f \in FaultsFor(Len(l), ts) : \E va \in Variants :
+               \* the variants only on fault-free behaviours; a stall also in a paced transfer
+               /\ (va # Plain => (f.kind = "none" \/ (f.kind = "stall" /\ va = Paced)))
+               /\ cfgv = [mode |-> t.mode, q |-> t.q, R |-> t.R, lens |-> l, tsig |-> ts, fault |-> f, tail |-> va.tail,
+                          sq |-> va.sq, sa |-> va.sa, pace |-> va.pace]
         /\ InShard(cfgv)
         /\ envs = Network(cfgv)
         /\ r = RInit /\ pos = 1
@@ -194,6 +219,6 @@ ASSUME /\ SerialGT(<<0, 5>>, <<65535, 65535>>) /\ ~SerialGT(<<65535, 65535>>, <<
 
 Out == (EmitBehaviours /\ Finished) =>
   Emit([kind |-> "xfr", mode |-> cfgv.mode, q |-> cfgv.q, R |-> cfgv.R, lens |-> cfgv.lens, tsig |-> cfgv.tsig,
-        fault |-> cfgv.fault, tail |-> cfgv.tail,
+        fault |-> cfgv.fault, tail |-> cfgv.tail, sq |-> cfgv.sq, sa |-> cfgv.sa, pace |-> cfgv.pace, timeout |-> TimeoutTicks, stall |-> TimeoutTicks + 1,
         delivered |-> r.delivered, err |-> r.status = "error", ambig |-> r.status = "ambig", used |-> r.used])
 =============================================================================
